@@ -453,6 +453,10 @@ class BSplineBasis:
         len_left = left.stop - left.start
         right = slice(0, n-len_left, None)
         (self.knots[:len_left], self.knots[len_left:]) = (self.knots[left], self.knots[right] - t1)
+        # the shifted knots are recomputed in floating point: copies of one knot must stay identical
+        for i in range(1, n):
+            if abs(self.knots[i] - self.knots[i-1]) < state.knot_tolerance:
+                self.knots[i] = self.knots[i-1]
 
     def matches(self, bspline, reverse=False):
         """ Checks if this basis equals another basis, when disregarding
